@@ -16,6 +16,7 @@ type Cfg struct {
 	ConCap  int    `json:"con_cap"`            // same for the contact value array
 	ParCap  int    `json:"par_cap"`            // URI parameter / URI header array length
 	HType   int    `json:"htype,omitempty"`    // nameaddr: header kind passed to ParseNameAddrPVal
+	HBMask  uint8  `json:"hb_mask,omitempty"`  // hdrline/headers: a caller's own PHBodies whose getters return nil for these kinds (bit order: From To Call-ID CSeq Content-Length Contacts Expires PAIs)
 	NoHB    bool   `json:"no_hb,omitempty"`    // hdrline/headers: pass a nil PHBodies (generic value parsing only)
 }
 
@@ -295,6 +296,70 @@ func (d *FLineD) Snap(r *Rec, buf []byte)           { SnapFLine(r, &d.FL) }
 func (d *FLineD) Reset(how int)                     { d.FL.Reset() }
 func (d *FLineD) Continues(err sipsp.ErrorHdr) bool { return false }
 
+// partialHB is a caller-written PHBodies that has no room for some kinds of values: the getters of
+// the masked kinds return nil ("fall back to generic value parsing").
+type partialHB struct {
+	pv   *sipsp.PHdrVals
+	mask uint8
+}
+
+func (p *partialHB) GetFrom() *sipsp.PFromBody {
+	if p.mask&1 != 0 {
+		return nil
+	}
+	return p.pv.GetFrom()
+}
+func (p *partialHB) GetTo() *sipsp.PFromBody {
+	if p.mask&2 != 0 {
+		return nil
+	}
+	return p.pv.GetTo()
+}
+func (p *partialHB) GetCallID() *sipsp.PCallIDBody {
+	if p.mask&4 != 0 {
+		return nil
+	}
+	return p.pv.GetCallID()
+}
+func (p *partialHB) GetCSeq() *sipsp.PCSeqBody {
+	if p.mask&8 != 0 {
+		return nil
+	}
+	return p.pv.GetCSeq()
+}
+func (p *partialHB) GetCLen() *sipsp.PUIntBody {
+	if p.mask&16 != 0 {
+		return nil
+	}
+	return p.pv.GetCLen()
+}
+func (p *partialHB) GetContacts() *sipsp.PContacts {
+	if p.mask&32 != 0 {
+		return nil
+	}
+	return p.pv.GetContacts()
+}
+func (p *partialHB) GetExpires() *sipsp.PUIntBody {
+	if p.mask&64 != 0 {
+		return nil
+	}
+	return p.pv.GetExpires()
+}
+func (p *partialHB) GetPAIs() *sipsp.PPAIs {
+	if p.mask&128 != 0 {
+		return nil
+	}
+	return p.pv.GetPAIs()
+}
+func (p *partialHB) Reset() { p.pv.Reset() }
+
+func hbFor(cfg *Cfg, pv *sipsp.PHdrVals) sipsp.PHBodies {
+	if cfg.HBMask != 0 {
+		return &partialHB{pv: pv, mask: cfg.HBMask}
+	}
+	return pv
+}
+
 // ---------------------------------------------------------------- hdrline
 
 // HdrLineD drives ParseHdrLine on one header line ("called again ... with the
@@ -317,7 +382,7 @@ func (d *HdrLineD) Call(buf []byte, offs int, eof bool) (int, sipsp.ErrorHdr) {
 	if d.cfg.NoHB {
 		return sipsp.ParseHdrLine(buf, offs, &d.H, nil)
 	}
-	return sipsp.ParseHdrLine(buf, offs, &d.H, &d.PV)
+	return sipsp.ParseHdrLine(buf, offs, &d.H, hbFor(&d.cfg, &d.PV))
 }
 func (d *HdrLineD) Snap(r *Rec, buf []byte) {
 	o := r.In("Hdr.")
@@ -362,7 +427,7 @@ func (d *HeadersD) Call(buf []byte, offs int, eof bool) (int, sipsp.ErrorHdr) {
 	if d.cfg.NoHB {
 		return sipsp.ParseHeaders(buf, offs, &d.HL, nil)
 	}
-	return sipsp.ParseHeaders(buf, offs, &d.HL, &d.PV)
+	return sipsp.ParseHeaders(buf, offs, &d.HL, hbFor(&d.cfg, &d.PV))
 }
 func (d *HeadersD) Snap(r *Rec, buf []byte) {
 	SnapHdrLst(r, &d.HL)
